@@ -37,6 +37,7 @@ import (
 	"github.com/prometheus/alertmanager/dispatch"
 	"github.com/prometheus/alertmanager/matcher/compat"
 
+	"verifharness/appsys"
 	"verifharness/vh"
 )
 
@@ -962,6 +963,11 @@ func aliasDoc(r *vh.Rand) string {
 func TestCheck(t *testing.T) {
 	env := vh.GetEnv()
 	run := vh.NewRun(env, "AM.Run.C17Run")
+	// app engine: the REAL application wiring (package app) in real time, in its own process; reports through run.
+	// true = the replay file held an app-engine case and has been handled.
+	if appsys.Part(t, env, run, "C17") {
+		return
+	}
 	x := &runner{run: run, env: env, t: t, secretPaths: map[string]bool{}}
 	if commoncfg.MarshalSecretValue {
 		t.Fatal("commoncfg.MarshalSecretValue is set: secrets would be printed")
